@@ -11,7 +11,9 @@
 //! mod    := mode nOwn blob*  blob[ handler ]    mode%4: 0 default stack, 1 default++own, 2 own, 3 own++default
 //! handler:= stages(%4) xkind(%4: 0 none 1 timer 2 shutdown 3 caught panic) xa xb xc  lp(start) lp(msg) lp(end) lp(task)
 //!          panic: the module's stereotype gets on_panic_catch; xb%3 = 0 handle_message of payload xa panics,
-//!          1 at_sim_start(xa) panics, 2 at_sim_end panics (each after its sends)
+//!          1 at_sim_start(xa) panics, 2 at_sim_end panics (each after its sends), only from time xc on
+//!          optional tail after the four lists (shutdown only): pf pst psince; pf odd = catching stereotype and
+//!          at_sim_start(pst) panics from time psince on (psince > 0: a panic in a stage of a restart)
 //! inj    := kind dst time id        kind odd = handle_message_on, even = add_message_onto(port)
 //!
 //! Output: the call log, 5 numbers per entry: module who hook a b
@@ -71,6 +73,20 @@ struct HandlerCfg {
     msg: Vec<Emit>,
     end: Vec<Emit>,
     task: Vec<Emit>,
+    pf: u64,
+    pst: u64,
+    psince: u64,
+}
+
+impl HandlerCfg {
+    fn catches(&self) -> bool {
+        self.xkind == 3 || (self.xkind == 2 && self.pf % 2 == 1)
+    }
+    /// does at_sim_start(stage) end in a panic now?
+    fn start_panics(&self, stage: u64) -> bool {
+        (self.xkind == 3 && self.xb % 3 == 1 && stage == self.xa && now() >= self.xc)
+            || (self.xkind == 2 && self.pf % 2 == 1 && stage == self.pst && now() >= self.psince)
+    }
 }
 
 #[derive(Clone)]
@@ -119,7 +135,10 @@ fn dec_handler(b: &[u64]) -> HandlerCfg {
     let msg = triples(&c.take_lp());
     let end = triples(&c.take_lp());
     let task = triples(&c.take_lp());
-    HandlerCfg { stages, xkind, xa, xb, xc, start, msg, end, task }
+    let pf = c.next();
+    let pst = c.next();
+    let psince = c.next();
+    HandlerCfg { stages, xkind, xa, xb, xc, start, msg, end, task, pf, pst, psince }
 }
 
 fn dec_mod(c: &mut Cur) -> ModCfg {
@@ -230,7 +249,7 @@ impl Module for ScriptModule {
                 do_emits(m, 1, &task);
             });
         }
-        if h.xkind == 3 && h.xb % 3 == 1 && stage as u64 == h.xa {
+        if h.start_panics(stage as u64) {
             log(self.m, 0, 12, 0, 0);
             panic!("scripted panic in at_sim_start");
         }
@@ -250,7 +269,7 @@ impl Module for ScriptModule {
                 current().shutdown();
             }
         }
-        if h.xkind == 3 && h.xb % 3 == 0 && x == h.xa {
+        if h.xkind == 3 && h.xb % 3 == 0 && x == h.xa && now() >= h.xc {
             log(self.m, 0, 12, 0, 0);
             panic!("scripted panic in handle_message");
         }
@@ -259,7 +278,7 @@ impl Module for ScriptModule {
     fn at_sim_end(&mut self) -> Result<(), RuntimeError> {
         log(self.m, 0, 6, now(), 0);
         do_emits(self.m, 0, &self.cfg.handler.end);
-        if self.cfg.handler.xkind == 3 && self.cfg.handler.xb % 3 == 2 {
+        if self.cfg.handler.xkind == 3 && self.cfg.handler.xb % 3 == 2 && now() >= self.cfg.handler.xc {
             log(self.m, 0, 12, 0, 0);
             panic!("scripted panic in at_sim_end");
         }
@@ -317,7 +336,7 @@ fn run_line(nums: &[u64]) -> Vec<u64> {
     ];
 
     for m in 0..2 {
-        if mods[m].handler.xkind == 3 {
+        if mods[m].handler.catches() {
             refs[m].set_stereotyp(Stereotyp { on_panic_catch: true, ..Stereotyp::HOST });
         }
     }
